@@ -308,6 +308,79 @@ pub fn replay(w: &Value) -> Result<String, String> {
   }
 }
 
+
+/// A connection that appears while the context is already terminating (a connecter or listener that
+/// finished its work a moment too late): its session subscribes to the event bus after the
+/// ContextTerminating broadcast and must still stop at once.
+fn late_attach_world(pair: Pair, held: bool, settle_before: usize) -> world::WorldResult<(u64, bool, usize)> {
+  world::run(1, move || async move {
+    let ctx = Context::new().expect("context");
+    let pctx = Context::new().expect("peer context");
+    let (t0, t1) = match pair {
+      Pair::PushPull => (SocketType::Push, SocketType::Pull),
+      Pair::DealerRouter => (SocketType::Dealer, SocketType::Router),
+      Pair::ReqRep => (SocketType::Req, SocketType::Rep),
+      Pair::PubSub => (SocketType::Pub, SocketType::Sub),
+    };
+    let a = stack::mk(&ctx, t0, &[(o::LINGER, 0)]).await;
+    let b = stack::mk(&pctx, t1, &[(o::LINGER, 0)]).await;
+    settle_n(3).await;
+    let t = Instant::now();
+    let ctx2 = ctx.clone();
+    let term = tokio::spawn(async move { ctx2.term().await });
+    settle_n(settle_before).await;
+    // the late connection
+    let l = stack::link_pair(&a, &b, 256).await;
+    if held {
+      l.hold_both();
+    }
+    let returned = tokio::time::timeout(Duration::from_secs(60), term).await.is_ok();
+    let ms = t.elapsed().as_millis() as u64;
+    settle_n(3).await;
+    let actors = rzmq::verif::runtime::live_actor_count(&ctx);
+    l.destroy();
+    drop(a);
+    let _ = tokio::time::timeout(Duration::from_secs(30), pctx.term()).await;
+    (ms, returned, actors)
+  })
+}
+
+fn late_attach_sub() -> Sub {
+  let mut sub = Sub::new("connection-appears-during-term", "E3");
+  sub.rule = "case = one world: term() is started, then (0..3 scheduler rounds later) a new connection is attached to a socket of the terminating context, with a free or a held handshake; oracle: term() returns within 5 s virtual and no actor of the context is registered afterwards".into();
+  let mut list = vec![];
+  for pair in [Pair::PushPull, Pair::DealerRouter, Pair::ReqRep, Pair::PubSub] {
+    for held in [false, true] {
+      for k in [0usize, 1, 2, 3] {
+        list.push((pair, held, k));
+      }
+    }
+  }
+  sub.bounds = json!({"worlds": list.len()});
+  par::enumerate(&mut sub, list.len(), |i| {
+    let (pair, held, k) = list[i];
+    let r = late_attach_world(pair, held, k);
+    let wit = json!({"explorer": "e3", "sub": "connection-appears-during-term", "cell": format!("{:?} held={} after={}", pair, held, k)});
+    let class = format!("{:?}:{}", pair, if held { "handshake-held" } else { "handshake-free" });
+    let mut c = Case { steps: 3, nontrivial: true, ..Default::default() };
+    for p in &r.panics {
+      c.violations.push(("panic".into(), p.rsplit(" @ ").next().map(mc_core::short_loc).unwrap_or_default(), p.clone(), wit.clone()));
+    }
+    if let Some((ms, returned, actors)) = r.result {
+      c.outcome = mc_core::digest(&(returned, actors, ms > 5000));
+      c.state = mc_core::digest(&(i, actors));
+      if !returned || ms > 5000 {
+        c.violations.push(("close-or-term-too-slow".into(), class.clone(), format!("term() took {} ms virtual (returned: {}) with a connection attached {} rounds after it started", ms, returned, k), wit.clone()));
+      }
+      if actors != 0 {
+        c.violations.push(("actors-alive-after-term".into(), class.clone(), format!("{} actors still registered after term() returned", actors), wit.clone()));
+      }
+    }
+    c
+  });
+  sub
+}
+
 pub fn add_world_subs(rep: &mut Report, tier: Tier) {
   rep.assume("E3: close()/term() are injected at quiescence points after every prefix of the scripts, and while recv()/send() calls are blocked in their own tasks; term/close must return within 5 s virtual (well inside Context::term's hidden 10 s straggler timeout, which would otherwise mask a hang)");
   let depth = tier.pick(3, 6);
@@ -347,4 +420,5 @@ pub fn add_world_subs(rep: &mut Report, tier: Tier) {
     c
   });
   rep.add(sub);
+  rep.add(late_attach_sub());
 }
